@@ -7,6 +7,8 @@
 //! constraints and value definitions.
 pub(crate) mod error;
 mod linking;
+#[cfg(feature = "verif-hooks")]
+pub(crate) use linking::{verif_bits_to_octets, verif_named_bits, verif_octets_to_bits};
 #[cfg(test)]
 mod tests;
 
